@@ -2,6 +2,7 @@
   Property C13 — outbound calls are announced exactly, and only under the sender's authority.
 -/
 import Cgp.GatewaySpec
+import Cgp.Toy
 namespace Cgp.Props.C13
 open Cgp Cgp.Xdr Cgp.Gateway
 
@@ -66,5 +67,39 @@ example : ∃ evs, (step (fun b => b) (fun _ _ (_ : Unit) => true)
     ⟨initState ⟨true, []⟩ ⟨true, []⟩ [] 0 0, 0⟩ (.callContract [⟨true, [1]⟩] ⟨true, [1]⟩ [] [] [7])).2 = .ok evs ∧ evs.length = 1 := by
   rw [callContract_event _ _ _ _ _ _ _ _ (by simp)]
   exact ⟨_, rfl, rfl⟩
+
+/-! ### non-vacuity (the model RUN in the kernel on a concrete history, toy hash) -/
+section NonVacuity
+open Cgp.Toy
+
+def app0 : Addr := ⟨true, List.replicate 32 9⟩
+def mA : Message := ⟨[97], [49], [98], app0, List.replicate 32 3⟩
+def opsO : List (Op Unit) :=
+  [ .callContract [app0] app0 [100] [101] [1, 2, 3],      -- the sender's authorisation: announced
+    .callContract [] app0 [100] [101] [1, 2, 3],          -- none: rejected
+    .callContract [owner0, app0] app0 [100] [102] [] ]    -- announced
+
+/-- the hypothesis of `callContract_history_inert` is satisfiable on a world with content: on a constructed gateway (epoch 1)
+    that has approved a message, a history of outbound calls — two authorised, one not — emits exactly one event per authorised
+    call and leaves the approval record, the epoch, the signer lookup, the rotation clock and the ledger time as they were -/
+theorem callContract_history_nonvacuous :
+    ∃ w0, constructed H0 owner0 owner0 [1] 0 0 [ws0] 5 = some w0 ∧
+      (∀ op ∈ opsO, ∃ auths caller chain dest payload, op = .callContract auths caller chain dest payload) ∧
+      (run H0 V0 w0 [.approve [mA] pf0]).1.st.approvals [97] [49] = .approved (messageHash H0 mA) ∧
+      (run H0 V0 w0 [.approve [mA] pf0]).1.st.epoch = 1 ∧
+      (run H0 V0 (run H0 V0 w0 [.approve [mA] pf0]).1 opsO).2.map gwErr = [none, some .unauthorized, none] ∧
+      (run H0 V0 (run H0 V0 w0 [.approve [mA] pf0]).1 opsO).2.map gwEvents = [1, 0, 1] ∧
+      (run H0 V0 (run H0 V0 w0 [.approve [mA] pf0]).1 opsO).1.st.approvals [97] [49] = .approved (messageHash H0 mA) ∧
+      (run H0 V0 (run H0 V0 w0 [.approve [mA] pf0]).1 opsO).1.st.epoch = 1 ∧
+      (run H0 V0 (run H0 V0 w0 [.approve [mA] pf0]).1 opsO).1.st.epochByHash (signersHash H0 ws0) = some 1 ∧
+      (run H0 V0 (run H0 V0 w0 [.approve [mA] pf0]).1 opsO).1.st.lastRot = some 5 ∧
+      (run H0 V0 (run H0 V0 w0 [.approve [mA] pf0]).1 opsO).1.now = 5 := by
+  refine ⟨_, rfl, ?_, ?_⟩
+  · intro op h
+    simp only [opsO, List.mem_cons, List.not_mem_nil, or_false] at h
+    rcases h with rfl | rfl | rfl <;> exact ⟨_, _, _, _, _, rfl⟩
+  · decide +kernel
+
+end NonVacuity
 
 end Cgp.Props.C13
